@@ -20,8 +20,10 @@ def make_engine(kind, variant="plain"):
     """A new engine object, exactly as engine_collection.<kind>_engine() builds it, on a fresh build."""
     from strengths.librdengine import LibRDEngine
     lib = ctypes.CDLL(so_path(variant))
-    return LibRDEngine(lib, option=kind, description="description",
-                       requires_molecules=(kind != "euler"))
+    e = LibRDEngine(lib, option=kind, description="description",
+                    requires_molecules=(kind != "euler"))
+    e.verif_lib = lib          # our own handle on the native library (no reliance on private attribute names)
+    return e
 
 
 class Probe:
@@ -40,8 +42,10 @@ class Probe:
 
     def engine(self, kind):
         from strengths.librdengine import LibRDEngine
-        return LibRDEngine(self.lib, option=kind, description="description",
-                           requires_molecules=(kind != "euler"))
+        e = LibRDEngine(self.lib, option=kind, description="description",
+                        requires_molecules=(kind != "euler"))
+        e.verif_lib = self.lib
+        return e
 
     def clear(self):
         self.lib.verif_clear()
@@ -93,13 +97,13 @@ class Probe:
 
 
 def raw_time(engine):
-    engine._lib.engineexport_get_time.restype = ctypes.c_double
-    return float(engine._lib.engineexport_get_time())
+    engine.verif_lib.engineexport_get_time.restype = ctypes.c_double
+    return float(engine.verif_lib.engineexport_get_time())
 
 
 def raw_state(engine, n):
     buf = (ctypes.c_double * n)()
-    engine._lib.engineexport_get_state(buf)
+    engine.verif_lib.engineexport_get_state(buf)
     return [buf[i] for i in range(n)]
 
 
